@@ -35,7 +35,7 @@ Print Assumptions C06_restart_of_wellformed_world.
    restore the engine from its checkpoint, read the WAL back from it, replay) succeeds, and the state it serves is
    the result of applying the entries 1..k in order, with k at least the last acknowledged index and at most the
    last proposed one. The engine content found after the death is never used. *)
-Theorem C06_recover_correct : forall c evs s,
+Theorem C06_recover_correct : forall c evs s, fixed c ->
   run c init_state evs = Ok s -> sched_ok c init_state evs ->
   forall j extra ss, image s j extra = Some ss ->
   exists k, recover ss (snapfiles s) (ckpts s) = Ok (range 0 k) /\ acked s <= k <= proposed s.
@@ -43,7 +43,7 @@ Proof. exact recover_correct. Qed.
 Print Assumptions C06_recover_correct.
 
 (* the same property without the schedule hypothesis is false of the model (C06_two_snapshots_in_flight_refuted below) *)
-Definition C06_full : Prop := forall c evs s,
+Definition C06_full : Prop := forall c evs s, fixed c ->
   run c init_state evs = Ok s ->
   forall j extra ss, image s j extra = Some ss ->
   exists k, recover ss (snapfiles s) (ckpts s) = Ok (range 0 k) /\ acked s <= k <= proposed s.
@@ -52,7 +52,7 @@ Definition C06_full : Prop := forall c evs s,
    has its snap file and its checkpoint, and the checkpoint holds the state at that index; (I3) the live WAL
    segments do not start after that snapshot and still hold its marker; (I4) every acknowledged entry is in every
    crash image of the WAL *)
-Theorem C06_ordering_invariants : forall c evs s,
+Theorem C06_ordering_invariants : forall c evs s, fixed c ->
   run c init_state evs = Ok s -> sched_ok c init_state evs ->
   I1_I2_newest_marker_has_file_and_checkpoint s /\ I3_wal_not_purged_past_newest_snapshot s
   /\ I4_acknowledged_entries_are_in_every_crash_image s.
@@ -70,7 +70,7 @@ Proof. exact restart_succeeds. Qed.
 Print Assumptions C06_restart_succeeds.
 
 (* the invariant is what every reachable state satisfies (so C06_restart_succeeds applies after every death) *)
-Theorem C06_invariant_reachable : forall c evs s,
+Theorem C06_invariant_reachable : forall c evs s, fixed c ->
   sched_ok c init_state evs -> run c init_state evs = Ok s -> Inv c s.
 Proof. exact inv_reachable. Qed.
 Print Assumptions C06_invariant_reachable.
@@ -109,3 +109,25 @@ Theorem C06_two_snapshots_in_flight_refuted :
     /\ recover_state s 0 0 = Err E_FILE_NOT_FOUND.
 Proof. exact two_windows_refuted. Qed.
 Print Assumptions C06_two_snapshots_in_flight_refuted.
+
+(* the two ordering defects that this check found in the code (fixed in /repo by b025328 and c523023), shown on the
+   model of the code before the fix; both runs respect the schedule hypothesis, and the model of the code as it is
+   does not accept them *)
+Theorem C06_before_fix_b025328_refuted :
+  exists s, run cfg_before_b025328 init_state trace_ack_before_save = Ok s
+    /\ sched_okb cfg_before_b025328 init_state trace_ack_before_save = true
+    /\ acked s = 1 /\ recover_state s 0 0 = Ok [].
+Proof. exact ack_before_save_refuted. Qed.
+Print Assumptions C06_before_fix_b025328_refuted.
+
+Theorem C06_before_fix_c523023_refuted :
+  exists s, run cfg_before_c523023 init_state trace_orphans = Ok s
+    /\ sched_okb cfg_before_c523023 init_state trace_orphans = true
+    /\ acked s = 7 /\ snapfiles s = [7; 6] /\ recover_state s 0 0 = Err E_FILE_NOT_FOUND.
+Proof. exact orphans_refuted. Qed.
+Print Assumptions C06_before_fix_c523023_refuted.
+
+Example C06_fixed_code_rejects_old_orders :
+  snd (run_from (cfg2 true) init_state trace_ack_before_save 0) = Some (1, R_GUARD)
+  /\ snd (run_from (cfg2 true) init_state trace_orphans 0) = Some (135, R_GUARD).
+Proof. split; [exact ack_before_save_rejected_now | exact orphans_rejected_now]. Qed.
